@@ -25,7 +25,7 @@ func kb2i(b bool) int { return vIte(b, 1, 0) }
 // genKVOp draws one write with a symbolic key. The TTL/timestamp combinations are concrete shapes on
 // both sides of expiry (the arithmetic itself is decided for all values by H_C01_Expiry):
 //   kind 0 Put, persistent          kind 1 Put, ttl=1 (live when written, expired after vAdvance(1))
-//   kind 2 Put, ttl=5 (live)        kind 3 PutWithTimestamp(now-10, ttl=5) (already expired)
+//   kind 2 Put, ttl=5 (live)        kind 3 PutWithTimestamp(now-d, ttl=5), d in [5,15] (expired, incl. the boundary second)
 //   kind 4 Delete                   kind 5 PutWithTimestamp(now-3, ttl=5) (live)
 // kinds lists the shapes this write may take. Only the write with anyBucket set may go to the second
 // bucket (bucket isolation itself is C04).
@@ -44,7 +44,10 @@ func genKVOp(anyBucket bool, vlen int, maxKey int, kinds []int) kvWrite {
 	case 2:
 		w.val, w.ttl = vBytes(vlen), 5
 	case 3:
-		w.val, w.ttl, w.ts = vBytes(vlen), 5, uint64(vNow()-10)
+		// expired since d-5 seconds, d symbolic in [5,15]: includes "expires exactly now" (d == 5)
+		d := vNondetInt64()
+		vAssume(vAnd(d >= 5, d <= 15))
+		w.val, w.ttl, w.ts = vBytes(vlen), 5, uint64(vNow()-d)
 	case 5:
 		w.val, w.ttl, w.ts = vBytes(vlen), 5, uint64(vNow()-3)
 	default:
